@@ -707,3 +707,69 @@ def rule_keychk1(ctx: Ctx) -> RuleResult:
                   "the mapping branch never looks at the key types: YAML `files: {1: a}` under --dkf files exits 0 and emits "
                   "Dict[str, ...]", iff.lineno)
     return rr
+
+
+# ---------------------------------------------------------------------------------------------------------------
+EXISTENCE_TESTS = {"exists", "is_file", "is_dir", "isfile", "isdir", "lexists", "access"}
+
+
+def rule_load3(ctx: Ctx) -> RuleResult:
+    """A named input that does not exist must reach the loader (whose open() raises); it is never filtered away."""
+    rr = RuleResult("LOAD-3", "input paths are not silently dropped by an existence test", floor=2)
+    mod = ctx.prog.module("json_to_models/cli.py")
+    cli = ctx.prog.cls("json_to_models/cli.py", "Cli")
+    funcs = [f for f in mod.all_funcs if f.cls is None and f.parent is None] + \
+            [f for n in ("setup_models_data", "parse_args", "run") for f in cli.methods.get(n, [])]
+    anchors = {f.qualname for f in funcs}
+    for need in ("process_path", "Cli.setup_models_data"):
+        if need not in anchors:
+            raise AnalysisError(f"LOAD-3: anchor {need} not found in cli.py")
+    st = ("no path named on the command line is skipped because it does not exist or is not a regular file: a missing "
+          "input has to fail the run, not shrink the sample set")
+    for f in funcs:
+        rr.instances += 1
+        bad = []
+        for n in ast.walk(f.node):
+            if not (isinstance(n, ast.Call) and ((isinstance(n.func, ast.Attribute) and n.func.attr in EXISTENCE_TESTS) or
+                                                 (isinstance(n.func, ast.Name) and n.func.id in EXISTENCE_TESTS))):
+                continue
+            # where is the test used?
+            cur, par = n, mod.parents.get(n)
+            verdict = None
+            while par is not None:
+                if isinstance(par, ast.comprehension) and cur in par.ifs:
+                    verdict = "filters a comprehension"
+                    break
+                if isinstance(par, (ast.If, ast.While)) and (cur is par.test or cur in ast.walk(par.test)):
+                    raises = any(isinstance(x, ast.Raise) for b in (par.body, par.orelse) for s_ in b for x in ast.walk(s_))
+                    exits = any(isinstance(x, ast.Call) and norm(x.func) in ("sys.exit", "exit", "parser.error", "self.argparser.error")
+                                for b in (par.body, par.orelse) for s_ in b for x in ast.walk(s_))
+                    verdict = None if (raises or exits) else "guards a branch that neither raises nor exits"
+                    break
+                if isinstance(par, ast.Call) and norm(par.func) in ("filter", "itertools.filterfalse", "filterfalse"):
+                    verdict = "is the predicate of filter()"
+                    break
+                if isinstance(par, ast.Lambda):
+                    gp = mod.parents.get(par)
+                    if isinstance(gp, ast.Call) and norm(gp.func) in ("filter", "itertools.filterfalse", "filterfalse", "itertools.takewhile",
+                                                                         "itertools.dropwhile"):
+                        verdict = "is the predicate of " + norm(gp.func)
+                        break
+                if isinstance(par, ast.IfExp) and cur is par.test:
+                    verdict = "selects between values"
+                    break
+                if isinstance(par, (ast.Assert,)):
+                    verdict = None
+                    break
+                if isinstance(par, (ast.FunctionDef, ast.AsyncFunctionDef)):
+                    break
+                cur, par = par, mod.parents.get(par)
+            if verdict:
+                bad.append((n, verdict))
+        if bad:
+            for n, why in bad:
+                rr.ob(f.relpath, f.qualname, norm(n)[:80], st, VIOLATED,
+                      f"`{norm(n)[:50]}` {why}: a path that does not exist is dropped and the run continues", n.lineno)
+        else:
+            rr.ob(f.relpath, f.qualname, f.name, st, DISCHARGED, "no existence test decides which inputs are read", f.node.lineno)
+    return rr
